@@ -202,14 +202,14 @@ fn process_swaps_for_single_pool<C: ContentAddrStore>(
             swap.outputs[0].denom = pool.right();
             swap.outputs[0].value = CoinValue(multiply_frac(
                 right_withdrawn,
-                Ratio::new(swap.outputs[0].value.0, total_lefts),
+                share(swap.outputs[0].value.0, total_lefts),
             ))
             .min(MAX_COINVAL);
         } else {
             swap.outputs[0].denom = pool.left();
             swap.outputs[0].value = CoinValue(multiply_frac(
                 left_withdrawn,
-                Ratio::new(swap.outputs[0].value.0, total_rights),
+                share(swap.outputs[0].value.0, total_rights),
             ))
             .min(MAX_COINVAL);
         }
@@ -300,7 +300,7 @@ fn process_deposits_for_single_pool<C: ContentAddrStore>(
             .saturating_mul(deposit.outputs[1].value.0.sqrt());
         deposit.outputs[0].denom = pool.liq_token_denom();
         deposit.outputs[0].value =
-            multiply_frac(total_liqs, Ratio::new(my_mtsqrt, total_mtsqrt)).into();
+            multiply_frac(total_liqs, share(my_mtsqrt, total_mtsqrt)).into();
         log::debug!(
             "added {} total liquidity out of {}!",
             deposit.outputs[0].value,
@@ -384,10 +384,10 @@ fn process_withdrawals_for_single_pool<C: ContentAddrStore>(
         let my_liqs = deposit.outputs[0].value.0;
         deposit.outputs[0].denom = pool.left();
         deposit.outputs[0].value =
-            multiply_frac(total_left, Ratio::new(my_liqs, total_liqs)).into();
+            multiply_frac(total_left, share(my_liqs, total_liqs)).into();
         let synth = CoinData {
             denom: pool.right(),
-            value: multiply_frac(total_write, Ratio::new(my_liqs, total_liqs)).into(),
+            value: multiply_frac(total_write, share(my_liqs, total_liqs)).into(),
             covhash: deposit.outputs[0].covhash,
             additional_data: deposit.outputs[0].additional_data.clone(),
         };
@@ -510,6 +510,16 @@ fn process_pegging<C: ContentAddrStore>(mut state: UnsealedState<C>) -> Unsealed
     // return the state now
     assert!(state.pools.val_iter().count() >= 2);
     state
+}
+
+/// `part / whole` as a fraction. A total of zero only arises when every part is zero as well (a batch of zero-valued
+/// requests); that is a share of nothing, not a division by zero.
+fn share(part: u128, whole: u128) -> Ratio<u128> {
+    if whole == 0 {
+        Ratio::new(0, 1)
+    } else {
+        Ratio::new(part, whole)
+    }
 }
 
 fn multiply_frac(x: u128, frac: Ratio<u128>) -> u128 {
